@@ -867,6 +867,26 @@ func Siblings(s string) []string {
 	return out
 }
 
+var pastOnce sync.Map
+
+// Past gives the process a past before its first judged case: call(i, true) for i < probes makes calls with arguments
+// that the cases to come are likely to use again (the short words, the small sizes), then call(i, false) for i < others
+// makes calls with arguments that are all distinct from each other and from the probes. Results are discarded. What a
+// library remembers from call to call - a memo, a pool, an intern table, a ring of recent results - is then full, has
+// wrapped and has evicted the probes by the time the cases reuse them. Runs once per process and name; counted.
+func Past(name string, probes, others int, call func(i int, probe bool)) {
+	once, _ := pastOnce.LoadOrStore(name, new(sync.Once))
+	once.(*sync.Once).Do(func() {
+		for i := 0; i < probes; i++ {
+			call(i, true)
+		}
+		for i := 0; i < others; i++ {
+			call(i, false)
+		}
+		Count("calls made before the first judged case, results discarded ("+name+")", int64(probes+others))
+	})
+}
+
 // Stems returns inputs that stand to s as the steps of building it up or cutting it down: s with a letter appended, s
 // without its first letter, the first half of s and s without its last letter - in that order, so that a caller that
 // runs them before the judged call ends with a string of which s is the one-letter extension (primer design grows a
